@@ -465,6 +465,14 @@ class Resolver:
             if ms:
                 return ms, "byname", kinds
             return [], "ext", kinds
+        if isinstance(fn, ast.Call) and isinstance(fn.func, ast.Name) and fn.func.id == "getattr" and len(fn.args) == 2 \
+                and isinstance(fn.args[0], ast.Name) and fn.args[0].id == "self" and f is not None and (sc or f.cls) is not None:
+            # getattr(self, name)(...): one of the methods whose name the module writes as a string constant
+            cls_ = sc or f.cls
+            names = {c.value for c in ast.walk(f.module.tree) if isinstance(c, ast.Constant) and isinstance(c.value, str)}
+            ts = [m for nm in sorted(names) for m in self._method_targets(cls_, nm) if not m.is_property]
+            if ts:
+                return ts, "self", None
         return [], "unresolved", None
 
     def resolve(self, call, f):
